@@ -7,7 +7,7 @@ import z3
 from .values import *   # noqa
 from .values import H2D
 from . import values as VV
-from .models import (seq_of, named_array, len_alias, filter_axioms, filtered, mask_array, CNT, IDX, any_of, PyRaise)
+from .models import (seq_of, named_array, len_alias, filter_axioms, filtered, mask_array, CNT, IDX, any_of, PyRaise, SUMI, sum_axioms, sum_unfold)
 
 RealArr = z3.ArraySort(z3.IntSort(), z3.RealSort())
 # composite trapezoid sums: TRAPZ(y, x, j) = sum_{m<j} (x[m+1]-x[m]) * (y[m]+y[m+1]) / 2
@@ -243,6 +243,44 @@ def trapz_unfold(ya, xa, j):
     return TRAPZ(ya, xa, j + 1) == TRAPZ(ya, xa, j) + (z3.Select(xa, j + 1) - z3.Select(xa, j)) * (z3.Select(ya, j) + z3.Select(ya, j + 1)) / 2
 
 
+def m_chain(eng, st, args, kwargs, node):
+    """itertools.chain(*L) for a list L of sequences (consumed by list(...)): the concatenation.  With OFF(q) = sum of the lengths of
+    the first q sequences (prefix sums through SUMI; their unfolding is left to lemmas of the caller) element p of the result is element
+    p - OFF(q) of sequence q for the q with OFF(q) <= p < OFF(q+1).  That such a q exists for every p below the total length (lengths
+    are non-negative) is a fact of the lemma library (A-lemma, assumed)."""
+    if not (len(args) == 1 and isinstance(args[0], tuple) and args[0][0] == "*"):
+        raise Unsupported("itertools.chain of explicit arguments")
+    L = args[0][1]
+    if isinstance(L, VMaybeNone):
+        eng.oblige(st, "the chained list is not None", z3.Not(L.isnone), "safety", node)
+        L = L.val
+    o = seq_of(eng, st, L, node)
+    n, g = o.len, o.get
+    k = z3.Int("k!ch")
+    heap = st.heap
+
+    def rowlen(q):
+        r = g(q)
+        if isinstance(r, VMaybeNone):
+            r = r.val
+        return heap[r.addr].len
+    lens = named_array(eng, z3.Lambda([k], rowlen(k)), "CHL", extra_triggers=False)
+    sum_axioms(eng, lens, n, SUMI)
+    own = z3.Function(fresh_name("chain.owner"), z3.IntSort(), z3.IntSort())
+    total = SUMI(lens, n)
+    p = z3.Int("p!ch")
+    eng.axioms.append(z3.ForAll([p], z3.Implies(z3.And(0 <= p, p < total),
+                                                z3.And(0 <= own(p), own(p) < n, SUMI(lens, own(p)) <= p, p < SUMI(lens, own(p) + 1))), patterns=[own(p)]))
+
+    def get(pp):
+        q = own(pp)
+        r = g(q)
+        if isinstance(r, VMaybeNone):
+            r = r.val
+        return heap[r.addr].get(pp - SUMI(lens, q))
+    return st.alloc(HSeq(total, get, note=("chain", lens, n, own)))
+
+
 def install(eng):
     eng._np2 = {}
     eng._trapz_terms = []
@@ -253,6 +291,7 @@ def install(eng):
     M["np.sort"] = m_np_sort
     M["np.where"] = m_np_where
     M["np.squeeze"] = m_np_squeeze
+    M["itertools.chain"] = m_chain
     M["np.isscalar"] = m_np_isscalar
     M["np.full"] = m_np_full
     M["np.log10"] = __import__("pyvc.models", fromlist=["unary_float"]).unary_float(flog10)
